@@ -124,7 +124,9 @@ func boundsRule(c *Ctx, rule string, roots []*ssa.Function, scope map[string]boo
 	for _, t := range tr {
 		c.Trust("contract: " + t)
 	}
-	c.Floor(rule, "functions under the bounds analysis", nFn, 10)
+	if len(scope) > 0 {
+		c.Floor(rule, "functions under the bounds analysis", nFn, 10)
+	}
 }
 
 func shortWhat(w string) string {
@@ -172,5 +174,17 @@ func c11Bounds(c *Ctx) {
 	roots := []*ssa.Function{P.Func("tubes", "(*Muxer).receiver")}
 	boundsRule(c, "C11.R1", roots, c11Scope, func(fn *ssa.Function) bool {
 		return relPkg(fn) == "tubes"
+	})
+}
+
+// boundsRuleFns runs E2 over an explicit list of functions.
+func boundsRuleFns(c *Ctx, rule string, fns []*ssa.Function) {
+	boundsRule(c, rule, fns, map[string]bool{}, func(fn *ssa.Function) bool {
+		for _, f := range fns {
+			if f == fn {
+				return true
+			}
+		}
+		return false
 	})
 }
